@@ -26,7 +26,10 @@ RULE = ('seed sets of 1-2 distinct small molecules x all non-empty subsets '
         'applications the reference closure needed.'
         ' Entry forms: rule objects; rule TEXT (RING first, SMARTS '
         'fallback) with str seeds, with Mol seeds, and a bare string / bare '
-        'rule instead of lists. ')
+        'rule instead of lists. '
+        ' '
+        'Round 17: twelve small networks generated from rule texts by four'
+        ' threads at once.')
 ASSUMPTIONS = [
     'unimolecular rules; closures above 250 species are skipped (counted)',
     'RunReactants of a single rule on a single species is a primitive '
